@@ -329,7 +329,28 @@ def deletion_pass(ctx, tag='C07'):
                 ctx.count('cross-delete/no-unresolved-holder')
                 continue
             o, f, p = rng.choice(holders)
-            how = rng.choice(['read-through-proxy', 'read-through-proxy', 'force_resolve', 'eClass-through-proxy'])
+            how = rng.choice(['read-through-proxy', 'read-through-proxy', 'force_resolve', 'eClass-through-proxy', 'delete-the-proxy'])
+            if how == 'delete-the-proxy':
+                # the stand-in itself is deleted, unresolved as it is (nothing is loaded for that): whoever held it lets go
+                ctx.evaluations += 1
+                ctx.count('cross-delete/' + how)
+                ctx.nontriv(('cross-delete', h))
+                nres = len(first.resource_set.resources) if first.resource_set else None
+                try:
+                    p.delete()
+                except Exception as e:
+                    ctx.violate({'clause': 'delete-raised', 'trigger': 'none', 'cross': True},
+                                f'delete-raised: delete() of an unresolved proxy ({fmt}) raised {type(e).__name__}: {e}',
+                                {'cross_delete': True, 'case': h, 'format': fmt, 'how': how})
+                    break
+                left = next((f'{x.eClass.name}.{g.name} (many={g.many})' for x in objs for g in _refs(x)
+                             if not g.derived and not (g.many and g.unique) for v in _vals_raw(x, g) if v is p), None)
+                if left:
+                    ctx.violate({'clause': 'dangling', 'trigger': 'none', 'cross': True},
+                                f'dangling: after delete() of an unresolved proxy ({fmt}): {left} still holds it',
+                                {'cross_delete': True, 'case': h, 'format': fmt, 'how': how})
+                    break
+                continue
             try:
                 if how == 'force_resolve':
                     p.force_resolve()
